@@ -64,31 +64,76 @@ fn rt<T: Serialize + DeserializeOwned>(em: &mut Emitter, kind: &str, sparse: boo
 }
 
 /// hand-written codec: from_bytes(to_bytes(x)) must give back an object with the same bytes
-fn hand<T>(em: &mut Emitter, kind: &str, x: &T, to: impl Fn(&T) -> Vec<u8>, from: impl Fn(&[u8]) -> Option<T>) {
+fn hand<T>(em: &mut Emitter, tag: &str, kind: &str, x: &T, to: impl Fn(&T) -> Vec<u8>, from: impl Fn(&[u8]) -> Option<T>) {
     em.oracle_case(&format!("{} hand {}", kind, em.oracle_evals));
     let a = to(x);
     match call_opt(|| from(&a)) {
         Out::Ok(y) => {
             if to(&y) != a {
-                em.violation(&format!("c19:hand-codec-differs:{}", kind), format!("{}: from_bytes(to_bytes(x)) re-encodes differently", kind), json!({"kind": kind, "bytes": hexs(&a)}));
+                em.violation(&format!("{}:hand-codec-differs:{}", tag, kind), format!("{}: from_bytes(to_bytes(x)) re-encodes differently", kind), json!({"kind": kind, "bytes": hexs(&a)}));
             }
         }
-        Out::Err => em.violation(&format!("c19:hand-codec-roundtrip:{}", kind), format!("{}: from_bytes rejects the output of to_bytes", kind), json!({"kind": kind, "bytes": hexs(&a)})),
-        Out::Panic(m) => em.violation(&format!("c19:hand-codec-panic:{}", kind), format!("{}: from_bytes panicked on the output of to_bytes: {}", kind, m), json!({"kind": kind, "bytes": hexs(&a)})),
+        Out::Err => em.violation(&format!("{}:hand-codec-roundtrip:{}", tag, kind), format!("{}: from_bytes rejects the output of to_bytes", kind), json!({"kind": kind, "bytes": hexs(&a)})),
+        Out::Panic(m) => em.violation(&format!("{}:hand-codec-panic:{}", tag, kind), format!("{}: from_bytes panicked on the output of to_bytes: {}", kind, m), json!({"kind": kind, "bytes": hexs(&a)})),
     }
     // truncations and extensions must not panic
     for cut in [1usize, 16, 32, 47] {
         if a.len() > cut {
             let b = &a[..a.len() - cut];
             if let Out::Panic(m) = call_opt(|| from(b)) {
-                em.violation(&format!("c19:hand-codec-panic:{}", kind), format!("{}: from_bytes panicked on a truncated encoding: {}", kind, m), json!({"kind": kind, "bytes": hexs(b)}));
+                em.violation(&format!("{}:hand-codec-panic:{}", tag, kind), format!("{}: from_bytes panicked on a truncated encoding: {}", kind, m), json!({"kind": kind, "bytes": hexs(b)}));
+            }
+        }
+    }
+    // field slots overwritten with values outside the field / not on the curve: the three points and the lengths stay
+    // valid, one aligned 32- or 48-byte window becomes ff…ff, the group order r (either byte order) or r + 1 — a decoder
+    // that reaches the slot must answer None / Err, not unwind
+    {
+        let r_be: [u8; 32] = {
+            let mut b = (-Scalar::ONE).to_be_bytes();
+            // (r − 1) + 1, no carry beyond the last byte for BLS12-381's r
+            b[31] = b[31].wrapping_add(1);
+            b
+        };
+        let mut r_le = r_be;
+        r_le.reverse();
+        let mut r1_be = r_be;
+        r1_be[31] = r1_be[31].wrapping_add(1);
+        let pats: Vec<(&str, Vec<u8>)> = vec![("ff", vec![0xff; 32]), ("r-be", r_be.to_vec()), ("r-le", r_le.to_vec()), ("r+1-be", r1_be.to_vec()), ("ff48", vec![0xff; 48])];
+        let mut offsets: Vec<usize> = vec![];
+        for w in [32usize, 48] {
+            let mut o = 0;
+            while o + w <= a.len() && offsets.len() < 64 {
+                offsets.push(o);
+                o += w;
+            }
+            let mut k = 1;
+            while k * w <= a.len() && k <= 8 {
+                offsets.push(a.len() - k * w);
+                k += 1;
+            }
+        }
+        offsets.sort();
+        offsets.dedup();
+        for o in offsets {
+            for (pn, pat) in &pats {
+                if o + pat.len() > a.len() {
+                    continue;
+                }
+                let mut b = a.clone();
+                b[o..o + pat.len()].copy_from_slice(pat);
+                em.oracle_evals += 1;
+                if let Out::Panic(m) = call_opt(|| from(&b)) {
+                    em.violation(&format!("{}:hand-codec-panic:{}", tag, kind), format!("{}: from_bytes panicked on an encoding whose bytes {}..{} are {} (out-of-field value in a valid frame): {}", kind, o, o + pat.len(), pn, m), json!({"kind": kind, "bytes": hexs(&b), "offset": o, "pattern": pn}));
+                    break;
+                }
             }
         }
     }
     let mut c = a.clone();
     c.extend_from_slice(&[0u8; 7]);
     if let Out::Panic(m) = call_opt(|| from(&c)) {
-        em.violation(&format!("c19:hand-codec-panic:{}", kind), format!("{}: from_bytes panicked on an extended encoding: {}", kind, m), json!({"kind": kind}));
+        em.violation(&format!("{}:hand-codec-panic:{}", tag, kind), format!("{}: from_bytes panicked on an extended encoding: {}", kind, m), json!({"kind": kind}));
     }
 }
 
@@ -289,41 +334,41 @@ fn suite_objects<S: ShortGroupSignatureScheme>(em: &mut Emitter, rng: &mut Rng, 
     }
 }
 
-fn hand_codecs(em: &mut Emitter, rng: &mut Rng) {
+pub fn hand_codecs(em: &mut Emitter, rng: &mut Rng, tag: &str) {
     use std::num::NonZeroUsize;
     for n in 1..=em.n(4, 8) {
         // PS
         let (ppk, psk) = ps::PsScheme::new_keys(NonZeroUsize::new(n).unwrap(), rng.chacha()).unwrap();
-        hand(em, "ps::PublicKey", &ppk, |x| x.to_bytes(), |b| ps::PublicKey::from_bytes(b));
-        hand(em, "ps::SecretKey", &psk, |x| x.to_bytes(), |b| ps::SecretKey::from_bytes(b));
+        hand(em, tag, "ps::PublicKey", &ppk, |x| x.to_bytes(), |b| ps::PublicKey::from_bytes(b));
+        hand(em, tag, "ps::SecretKey", &psk, |x| x.to_bytes(), |b| ps::SecretKey::from_bytes(b));
         let msgs: Vec<Scalar> = (0..n).map(|_| rng.scalar()).collect();
         let psig = ps::PsScheme::sign(&psk, &msgs).unwrap();
-        hand(em, "ps::Signature", &psig, |x| x.to_bytes().to_vec(), |b| <[u8; 128]>::try_from(b).ok().and_then(|a| Option::from(ps::Signature::from_bytes(&a))));
+        hand(em, tag, "ps::Signature", &psig, |x| x.to_bytes().to_vec(), |b| <[u8; 128]>::try_from(b).ok().and_then(|a| Option::from(ps::Signature::from_bytes(&a))));
         // BBS
         let (bpk, bsk) = bbs::BbsScheme::new_keys(NonZeroUsize::new(n).unwrap(), rng.chacha()).unwrap();
-        hand(em, "bbs::PublicKey", &bpk, |x| x.to_bytes(), |b| bbs::PublicKey::from_bytes(b));
-        hand(em, "bbs::SecretKey", &bsk, |x| x.to_bytes(), |b| bbs::SecretKey::from_bytes(b));
+        hand(em, tag, "bbs::PublicKey", &bpk, |x| x.to_bytes(), |b| bbs::PublicKey::from_bytes(b));
+        hand(em, tag, "bbs::SecretKey", &bsk, |x| x.to_bytes(), |b| bbs::SecretKey::from_bytes(b));
         let bsig = bbs::BbsScheme::sign(&bsk, &msgs).unwrap();
-        hand(em, "bbs::Signature", &bsig, |x| x.to_bytes(), |b| bbs::Signature::from_bytes(b));
+        hand(em, tag, "bbs::Signature", &bsig, |x| x.to_bytes(), |b| bbs::Signature::from_bytes(b));
         // proofs of knowledge for a few partitions
         for mask in [0u32, 1, (1 << n) - 1, rng.below(1 << n) as u32] {
             use credx::knox::short_group_sig_core::{HiddenMessage, ProofMessage};
             let pm: Vec<ProofMessage<Scalar>> = (0..n).map(|i| if mask >> i & 1 == 1 { ProofMessage::Revealed(msgs[i]) } else { ProofMessage::Hidden(HiddenMessage::ProofSpecificBlinding(msgs[i])) }).collect();
             if let Ok(pok) = ps::PsScheme::commit_signature_pok(psig.clone(), &ppk, &pm, rng.chacha()) {
                 if let Ok(proof) = pok.generate_proof(rng.scalar()) {
-                    hand(em, "ps::PokSignatureProof", &proof, |x| x.to_bytes(), |b| ps::PokSignatureProof::from_bytes(b));
+                    hand(em, tag, "ps::PokSignatureProof", &proof, |x| x.to_bytes(), |b| ps::PokSignatureProof::from_bytes(b));
                 }
             }
             if let Ok(pok) = bbs::BbsScheme::commit_signature_pok(bsig.clone(), &bpk, &pm, rng.chacha()) {
                 if let Ok(proof) = pok.generate_proof(rng.scalar()) {
-                    hand(em, "bbs::PokSignatureProof", &proof, |x| x.to_bytes(), |b| bbs::PokSignatureProof::from_bytes(b));
+                    hand(em, tag, "bbs::PokSignatureProof", &proof, |x| x.to_bytes(), |b| bbs::PokSignatureProof::from_bytes(b));
                 }
             }
         }
         // blind contexts
         let hidden: Vec<(usize, Scalar)> = (0..n).filter(|i| i % 2 == 0).map(|i| (i, msgs[i])).collect();
         if let Ok((ctx, _)) = ps::PsScheme::new_blind_signature_context(&hidden, &ppk, rng.scalar(), rng.chacha()) {
-            hand(em, "ps::BlindSignatureContext", &ctx, |x| x.to_bytes(), |b| ps::BlindSignatureContext::from_bytes(b));
+            hand(em, tag, "ps::BlindSignatureContext", &ctx, |x| x.to_bytes(), |b| ps::BlindSignatureContext::from_bytes(b));
         }
     }
 }
@@ -415,7 +460,7 @@ pub fn gen_c19(em: &mut Emitter, rng: &mut Rng) {
                credentials, bundles, blind requests and bundles, keys, signatures, presentation schemas and presentations over all statement / proof \
                kinds, single proofs, witnesses, accumulators) × JSON, CBOR, BARE: decode(encode(x)) re-encodes to the same bytes and gives the same \
                verification verdicts; hand-written to_bytes / from_bytes codecs of both suites (keys, signatures, proofs, blind contexts) round trip and \
-               never panic on truncated / extended input".into();
+               never panic on truncated / extended input or on out-of-field values (ff…ff, r, r+1) written into any aligned 32/48-byte slot of a valid frame".into();
     if em.mine(0) {
         suite_objects::<Bbs>(em, &mut rng.sub(1), "bbs");
     }
@@ -423,7 +468,7 @@ pub fn gen_c19(em: &mut Emitter, rng: &mut Rng) {
         suite_objects::<Ps>(em, &mut rng.sub(2), "ps");
     }
     if em.mine(2) {
-        hand_codecs(em, &mut rng.sub(3));
+        hand_codecs(em, &mut rng.sub(3), "c19");
         codec_model_lines(em, &mut rng.sub(4));
     }
 }
